@@ -189,6 +189,42 @@ def pRBucket (s : String) : P Equals.RBucket := do
 def pCMSOpt (rows cols m : String) : P (Option CMS) := do
   if rows == "nil" then pure none else pure (some ⟨← pNat rows, ← pNat cols, ← pMatrix m⟩)
 
+/-! ### sizing formulas of internal/util/base.go and the constructors, evaluated in IEEE double.
+    Go's math.Log / math.Log2 and the C library's may differ in the last bit, so a result is accepted
+    when it is produced with the real-valued argument perturbed by at most 1e-12 relatively. -/
+
+def ceilNat (x : Float) : Nat := x.ceil.toUInt64.toNat
+def near (f : Float → Nat) (obs : Nat) : Bool :=
+  f 1.0 == obs || f (1.0 - 1e-12) == obs || f (1.0 + 1e-12) == obs
+
+def bloomSizeF (n : Nat) (p : Float) (sc : Float) : Nat :=
+  ceilNat (-((n.toFloat * Float.log p) / (Float.pow (Float.log 2.0) 2.0)) * sc)
+def bloomKF (size n : Nat) (sc : Float) : Nat := ceilNat ((size / n).toFloat * Float.log 2.0 * sc)
+def cmsColsF (eps : Float) (sc : Float) : Nat := ceilNat (Float.exp 1.0 / eps * sc)
+def cmsRowsF (delta : Float) (sc : Float) : Nat := ceilNat (Float.log (1.0 / delta) * sc)
+def cuckooFplF (size : Nat) (eps : Float) (sc : Float) : Nat :=
+  let v := Float.ceil ((Float.log2 (1.0 / eps) + Float.log2 ((2 * size).toFloat)) * sc)
+  ceilNat (v / 8.0)
+def cuckooCapF (size b : Nat) (sc : Float) : Nat := ceilNat (size.toFloat * 0.955 / b.toFloat * sc)
+
+def handleSize (toks : List String) : P String := do
+  match toks with
+  | ["size.bloom", n, pbits, size, k] =>
+    let n ← pNat n; let p := Float.ofBits (← pNat pbits).toUInt64
+    let size ← pNat size; let k ← pNat k
+    let okS := near (bloomSizeF n p) size
+    let okK := near (bloomKF size n) k
+    pure (verdict (okS && okK) s!"size={bloomSizeF n p 1.0} k={bloomKF size n 1.0}")
+  | ["size.cms", ebits, dbits, rows, cols] =>
+    let e := Float.ofBits (← pNat ebits).toUInt64; let d := Float.ofBits (← pNat dbits).toUInt64
+    let ok := near (cmsColsF e) (← pNat cols) && near (cmsRowsF d) (← pNat rows)
+    pure (verdict ok s!"rows={cmsRowsF d 1.0} cols={cmsColsF e 1.0}")
+  | ["size.cuckoo", size, b, ebits, n, fpl] =>
+    let size ← pNat size; let b ← pNat b; let e := Float.ofBits (← pNat ebits).toUInt64
+    let ok := near (cuckooCapF size b) (← pNat n) && near (cuckooFplF size e) (← pNat fpl)
+    pure (verdict ok s!"n={cuckooCapF size b 1.0} fpl={cuckooFplF size e 1.0}")
+  | _ => throw "size:args"
+
 def handleEq (toks : List String) : P String := do
   match toks with
   | ["eq.bloom.mem", s1, k1, l1, w1, s2, k2, l2, w2, res] =>
@@ -352,7 +388,10 @@ def handle (toks : List String) : P String := do
       let bad := (← pStrList changed).filter (fun k => !ks.contains k)
       pure (verdict bad.isEmpty s!"not-in-keysOf {showStrList bad}")
   | "redis" :: rest => Redis.handle rest
-  | op :: rest => if op.startsWith "eq." then handleEq (op :: rest) else throw s!"unknown-op:{op}"
+  | op :: rest =>
+    if op.startsWith "eq." then handleEq (op :: rest)
+    else if op.startsWith "size." then handleSize (op :: rest)
+    else throw s!"unknown-op:{op}"
   | [] => throw "empty"
 
 partial def loop (h : IO.FS.Stream) (out : IO.FS.Stream) : IO Unit := do
